@@ -54,6 +54,9 @@ type Encryptor struct {
 	xsSampler      ring.Sampler
 	basisextender  *ring.BasisExtender
 	uniformSampler ringqp.UniformSampler
+	// uniformPRNG is the source bound with WithPRNG (nil: prng): the public
+	// randomness - the uniform elements, and the seeds that stand for them - comes from it.
+	uniformPRNG sampling.PRNG
 }
 
 // GetRLWEParameters returns the underlying [Parameters].
@@ -466,6 +469,7 @@ func (enc Encryptor) encryptZeroSkFromC1QP(sk *SecretKey, ct Element[ringqp.Poly
 // The returned encryptor isn't safe to use concurrently with the original encryptor.
 func (enc Encryptor) WithPRNG(prng sampling.PRNG) *Encryptor {
 	enc.uniformSampler = ringqp.NewUniformSampler(prng, *enc.params.RingQP())
+	enc.uniformPRNG = prng
 	return &enc
 }
 
